@@ -31,6 +31,15 @@ pub fn info() -> PropInfo {
 
 /// Independent reference: Ok(unescaped) or Err(()).
 pub fn ref_unescape(s: &str) -> Result<String, ()> {
+    ref_unescape_with(s, &[])
+}
+
+/// custom entities used by the resolver stage: replacement texts of different lengths (also
+/// empty, also longer than the reference, also containing markup characters)
+pub const CUSTOM: &[(&str, &str)] = &[("e", "V&<"), ("z", ""), ("x", "y"), ("long", "a replacement text that is longer than its name; &amp; untouched"), ("a", "\u{e9}")];
+
+/// the same with a table of custom entities consulted before the predefined ones
+pub fn ref_unescape_with(s: &str, custom: &[(&str, &str)]) -> Result<String, ()> {
     let cs: Vec<char> = s.chars().collect();
     let mut out = String::new();
     let mut i = 0;
@@ -72,6 +81,8 @@ pub fn ref_unescape(s: &str) -> Result<String, ()> {
                 Some(c) => out.push(c),
                 None => return Err(()),
             }
+        } else if let Some((_, v)) = custom.iter().find(|(k, _)| *k == name) {
+            out.push_str(v);
         } else {
             out.push(match name.as_str() {
                 "lt" => '<',
@@ -156,6 +167,25 @@ pub fn check(c: &Case) -> Verdict {
             if with.as_ref().ok().map(|c| c.to_string()) != unescape(s).ok().map(|c| c.to_string()) {
                 return Verdict::fail(format!("unescape_with(predefined) differs from unescape on {:?}", s));
             }
+            // a resolver with custom entities (consulted first) against the reference with the same table
+            let withc = unescape_with(s, |e| CUSTOM.iter().find(|(k, _)| *k == e).map(|(_, v)| *v).or(match e {
+                "lt" => Some("<"),
+                "gt" => Some(">"),
+                "amp" => Some("&"),
+                "apos" => Some("'"),
+                "quot" => Some("\""),
+                _ => None,
+            }));
+            let wantc = ref_unescape_with(s, CUSTOM);
+            match (&withc, &wantc) {
+                (Ok(a), Ok(b)) if a.as_ref() == b.as_str() => {
+                    if CUSTOM.iter().any(|(k, _)| s.contains(&format!("&{};", k))) {
+                        v.classes.push("custom-entity-resolved");
+                    }
+                }
+                (Err(_), Err(())) => {}
+                _ => return Verdict::fail(format!("unescape_with(custom entities) on {:?} gives {:?}, the reference gives {:?}", s, withc, wantc)),
+            }
             v
         }
         Case::CodePoint(cp, spelling) => {
@@ -227,7 +257,7 @@ fn run(ctx: &Ctx) {
     }, check);
     // offset sweep: every special / reference form after a run of 0..=130 plain bytes and before a
     // run of 0..=40 (block-wise scanners, copy offsets), with two kinds of plain runs
-    const SPECIALS: &[&str] = &["<", ">", "&", "'", "\"", "&amp;", "&lt;&gt;", "&#65;", "&#x10FFFF;", "&unknown;", "&#0;", "&", "&;", "\u{e9}<", "\r\n&", "]]>", "&apos;&quot;"];
+    const SPECIALS: &[&str] = &["<", ">", "&", "'", "\"", "&amp;", "&lt;&gt;", "&#65;", "&#x10FFFF;", "&unknown;", "&#0;", "&", "&;", "\u{e9}<", "\r\n&", "]]>", "&apos;&quot;", "&e;", "&z;", "&long;&x;", "&a;&e"];
     let (pmax, qmax) = ctx.tier.pick((130u64, 40u64), (300, 80));
     ctx.run_indexed("offset-sweep", (pmax + 1) * (qmax + 1) * SPECIALS.len() as u64 * 2, |i| {
         let fill = if i % 2 == 0 { "a" } else { "\u{e9}" };
@@ -239,7 +269,7 @@ fn run(ctx: &Ctx) {
         Some(Case::Str(format!("{}{}{}{}", fill.repeat(p), sp, "b".repeat(q), if (p + q) % 5 == 0 { sp } else { "" })))
     }, check);
     let piece = prop_oneof![
-        4 => prop::sample::select(vec!["<", ">", "&", "'", "\"", "#", "x", ";", "&amp;", "&lt;", "&#", "&#x", "]]>", "--", " ", "\t", "\n", "\r", "0", "41", "\u{e9}", "\u{20ac}", "\u{1F600}", "\u{0}", "\u{FFFD}", "\u{FEFF}"]).prop_map(|s| s.to_string()),
+        4 => prop::sample::select(vec!["<", ">", "&", "'", "\"", "#", "x", ";", "&amp;", "&lt;", "&#", "&#x", "&e;", "&z;", "&long;", "&x;", "&a;", "&e", "]]>", "--", " ", "\t", "\n", "\r", "0", "41", "\u{e9}", "\u{20ac}", "\u{1F600}", "\u{0}", "\u{FFFD}", "\u{FEFF}"]).prop_map(|s| s.to_string()),
         2 => any::<char>().prop_map(|c| c.to_string()),
         1 => "[a-zA-Z0-9]{0,6}",
     ];
